@@ -159,6 +159,9 @@ class SymbolCodePrinter(StrPrinter):  # type: ignore[misc]
         if expr.could_extract_minus_sign():
             expr = -expr
             tex = "-"
+            # a negated sum keeps its brackets: -(x + y)
+            if expr.is_Add:
+                return f"{tex}({self._print(expr)})"
 
         n, d = fraction(expr, exact=True)
 
@@ -197,6 +200,10 @@ class SymbolCodePrinter(StrPrinter):  # type: ignore[misc]
             elif term.could_extract_minus_sign():
                 tex += " - "
                 term = -term
+                # a subtracted sum keeps its brackets: x - (y + z)
+                if term.is_Add:
+                    tex += f"({self._print(term)})"
+                    continue
             else:
                 tex += " + "
             term_tex = self._print(term)
